@@ -21,7 +21,7 @@ RULE = ("(A) seeded call histories of 1-5 pipeflow calls on one net object over 
 ASSUMPTIONS = ["hook H2 reports the alpha used for the step, the per-variable error, the tolerances and the verdict of each iteration"]
 CONFIG = {"quick": {"shards": 8, "timeout_s": 600, "histories": 420, "driver_budgets": [1, 2, 3]},
           "thorough": {"shards": 16, "timeout_s": 3000, "histories": 9000, "driver_budgets": [1, 2, 3, 4]}}
-REQUIRED_COUNTERS = ["stage_endings_judged_against_requested_tolerances", "stage_endings_with_unequal_tolerances", "returns_checked", "failures_checked", "stages_converged", "stages_exhausted", "nr_iterations_observed",
+REQUIRED_COUNTERS = ["failures_before_first_iteration_after_success", "stage_endings_judged_against_requested_tolerances", "stage_endings_with_unequal_tolerances", "returns_checked", "failures_checked", "stages_converged", "stages_exhausted", "nr_iterations_observed",
                      "failure_after_success_checked", "driver_scripts", "driver_converged", "driver_step_rejections",
                      "runs_automatic", "returned_flows_vs_tight_solution_checks", "runs_mode_bidirectional", "runs_mode_sequential", "runs_mode_heat"]
 EXHAUSTIVE = {"quick": False, "thorough": False}
@@ -213,6 +213,11 @@ def hostile(spec, rng, how):
         pipes[int(rng.integers(len(pipes)))]["inner_diameter_mm"] = 0.0
     elif how == "nan_load" and sinks:
         sinks[0]["mdot_kg_per_s"] = float("nan")
+    elif how == "no_supply":
+        # every feeder switched off: nothing is supplied, the run fails before the first Newton iteration
+        for e in els:
+            if e["kind"] in ("ext_grid", "circ_pump_mass", "circ_pump_pressure"):
+                e["in_service"] = False
     elif how == "tiny_pipe" and pipes:
         p = pipes[int(rng.integers(len(pipes)))]
         p["inner_diameter_mm"] = 1.0
@@ -228,7 +233,7 @@ def make_history(case):
     else:
         spec = netgen.gen_hydraulic(rng, features=[("valves",), ("pump", "compressor"), ("flow_control", "press_control"),
                                                    ("islands", "oos")][int(rng.integers(4))])
-    how = str(rng.choice(["none", "none", "overload", "nan_param", "zero_diameter", "nan_load", "tiny_pipe"]))
+    how = str(rng.choice(["none", "none", "overload", "nan_param", "zero_diameter", "nan_load", "tiny_pipe", "no_supply"]))
     bad = hostile(__import__("copy").deepcopy(spec), rng, how)
     calls = []
     for k in range(int(rng.integers(1, 6))):
@@ -434,11 +439,13 @@ def run_history(case, obs):
                 obs.violate("failed_run_leaves_results", "after PipeflowNotConverged these tables hold numbers: %s" % left, tables=left, **desc)
             if not stages:
                 obs.count("failures_before_first_iteration")
+                if had_success:
+                    obs.count("failures_before_first_iteration_after_success")
             sol = None
         else:
             obs.count("outcome_" + outcome)
             name = outcome.split(":")[1]
-            valid_input = desc["hostile"] in ("none", "overload", "tiny_pipe")
+            valid_input = desc["hostile"] in ("none", "overload", "tiny_pipe", "no_supply")
             if not valid_input:
                 obs.count("invalid_parameter_outcome_" + name)   # NaN / zero parameters: outside the statement, shown only
             elif name in ("IndexError", "ZeroDivisionError", "FloatingPointError", "TypeError", "KeyError", "AttributeError"):
